@@ -107,7 +107,9 @@ def classify(rel):
 class FaultPlan(object):
     """One injected failure: fire at the ``index``-th fault-site event (counted over the kinds
     in ``kinds``) of the run; ``persistent`` makes every later event on the same target path
-    fail too, until ``clear()``."""
+    fail too, until ``clear()``; ``persistent == "noremove"`` is the variant in which the path can
+    still be unlinked (a file that cannot be opened or replaced -- permissions, a bad block --
+    while its directory is healthy)."""
 
     def __init__(self, index, err=_errno.EIO, persistent=False, kinds=FAULT_KINDS_CORE):
         self.index = index
@@ -207,7 +209,8 @@ class Run(object):
                         fp.count += 1
                         raise OSError(fp.err, os.strerror(fp.err) + " [injected]", path)
                     fp.count += 1
-            elif fp.persistent and path == fp.target and kind in fp.kinds and kind != "close-w":
+            elif fp.persistent and path == fp.target and kind in fp.kinds and kind != "close-w" and \
+                    not (fp.persistent == "noremove" and kind == "remove"):
                 fp.fired_n += 1
                 raise OSError(fp.err, os.strerror(fp.err) + " [injected]", path)
         # scheduler
@@ -528,21 +531,68 @@ def _flock(fd, operation):
     st = os.fstat(fd)
     key = (st.st_dev, st.st_ino)
     run.event("flock", "flock", ap)
+    # simulated lock table (a real flock would block the baton-passing scheduler):
+    # key -> {"ex": task or None, "sh": set(tasks)}
+    ent = run.flocks.setdefault(key, {"ex": None, "sh": {}})
+
+    def alive(holder):
+        """A holder (task, fd) still holds while its descriptor is open on the same inode."""
+        t, hfd = holder
+        if t in run.dead_tasks:
+            return False
+        try:
+            st2 = os.fstat(hfd)
+        except OSError:
+            return False
+        return (st2.st_dev, st2.st_ino) == key
+
     if operation & fcntl.LOCK_UN:
-        if run.flocks.get(key, (None,))[0] == task:
-            del run.flocks[key]
+        if ent["ex"] is not None and ent["ex"][0] == task:
+            ent["ex"] = None
+        ent["sh"].pop(task, None)
         return None
-    # simulated lock table (a real flock would block the baton-passing scheduler)
+    shared = bool(operation & fcntl.LOCK_SH)
+
+    def free():
+        ex = ent["ex"]
+        if ex is not None and not alive(ex):
+            ent["ex"] = ex = None
+        for t in [t for t, hfd in ent["sh"].items() if not alive((t, hfd))]:
+            del ent["sh"][t]
+        if ex is not None and ex[0] != task:
+            return False
+        if not shared and any(t != task for t in ent["sh"]):
+            return False
+        return True
+
     while True:
-        holder = run.flocks.get(key)
-        if holder is None or holder[0] == task or holder[0] in run.dead_tasks:
-            run.flocks[key] = (task, fd)
+        if free():
+            if shared:
+                ent["sh"][task] = fd
+                if ent["ex"] is not None and ent["ex"][0] == task:
+                    ent["ex"] = None
+            else:
+                ent["ex"] = (task, fd)
+                ent["sh"].pop(task, None)
             return None
         if operation & fcntl.LOCK_NB:
             raise BlockingIOError(_errno.EWOULDBLOCK, "simulated flock busy")
         if run.sched is None:
             raise RuntimeError("simulated flock would block forever (single task)")
-        run.sched.block_on(("flock", key))
+        run.sched.block_on(("flock", key), free)
+
+
+def _flock_release(run, fileobj, task):
+    """Closing a descriptor drops the advisory locks taken through it."""
+    try:
+        st = os.fstat(fileobj.fileno())
+    except (OSError, ValueError):
+        return
+    ent = run.flocks.get((st.st_dev, st.st_ino))
+    if ent is not None:
+        if ent["ex"] is not None and ent["ex"][0] == task:
+            ent["ex"] = None
+        ent["sh"].pop(task, None)
 
 
 class FileProxy(object):
@@ -628,13 +678,7 @@ class FileProxy(object):
                 self._discard()
                 raise
         # closing drops the simulated advisory lock
-        try:
-            st = os.fstat(self._f.fileno())
-            key = (st.st_dev, st.st_ino)
-            if self._run.flocks.get(key, (None,))[0] == task:
-                del self._run.flocks[key]
-        except (OSError, ValueError):
-            pass
+        _flock_release(self._run, self._f, task)
         object.__setattr__(self, "_dirty", False)
         return self._f.close()
 
